@@ -39,7 +39,14 @@ func TestC17Shipped(t *testing.T) {
 			t.Fatalf("dialect %s: %s", d.Name, msg)
 		}
 		rw := &dialect.ReadWriter{Dialect: d.Dialect}
-		if err := rw.Initialize(); err != nil {
+		if evid.HashS(d.Name)%2 == 0 {
+			// every other dialect codec comes from the older constructor: it must be the same codec
+			rw2, err := dialect.NewReadWriter(d.Dialect) //nolint:staticcheck
+			if err != nil {
+				fail("NewReadWriter: %v", err)
+			}
+			rw = rw2
+		} else if err := rw.Initialize(); err != nil {
 			fail("Initialize: %v", err)
 		}
 		ids := map[uint32]message.Message{}
